@@ -18,7 +18,8 @@ import CifModel.Model.Fill
   the parser model built (same enumeration orders); `ord` = the same content in another order; `BAD…` = the composition of the
   two models fails on this input (a disagreement for the generator's `agree`; `BADnumb`: a value handed to the store contains a
   number object — the hypothesis of C07_parser_route would not be the parser's own guarantee); `skip` = the trace contains a call that
-  `Store.Op` cannot express (lenient creation) or the target was not fresh.
+  `Store.Op` cannot express (lenient creation), there is no target, or the pre-existing content is not buildable by
+  `cifOps` (for a pre-filled target the history is `cifOps initial ++ trace`).
 
   (formats: harness/x_parse.c).  The units the scanner sees are those of the one-fill case of Model/Fill.lean
   (get_first_char, then one get_more_chars that reads everything).  Extra whitespace / end-of-line characters of the option
@@ -95,8 +96,8 @@ def answer (args : List String) : Option String :=
     let seq := String.ofList (tr.map fun | .mkBlock .. => 'b' | .mkFrame .. => 'f' | .setVal .. => 's' | .mkLoop .. => 'l' | .addPkt .. => 'p' | .prune .. => 'r')
     let sto : String :=
       if !(tr.all fun op => op.values.all numbFree) then "BADnumb" else
-      if tgt != "e" then "skip" else
-      match storeOps o tr with
+      if tgt == "n" then "skip" else
+      match (cifOps o initial).bind (fun pre => storeOps o (pre ++ tr)) with
       | none => "skip"
       | some sops =>
         match storeRun sops with
